@@ -46,9 +46,119 @@ structure OutSt where
   known : Bool := true
 deriving Repr
 
+/-! ## I/O watches of the toplevel instance (`tickit_watch_io`, the default event loop's slot tables)
+
+  `src/evloop-default.c` keeps two parallel arrays `pollfds[]` / `pollwatches[]` of `alloc_fds` elements (4 at first) of
+  which `nfds` are in use; slot 0 is the watch `tickit_build` puts on the terminal's input.  `evloop_io` takes the first
+  slot whose `fd` is -1, or appends one, doubling both arrays with `realloc` when `nfds == alloc_fds`; the slot's `revents`
+  is cleared.  `evloop_cancel_io` sets the slot's `fd` to -1.  After `poll`, `evloop_run` walks `idx = 0 .. nfds` — `nfds`,
+  and `evdata->pollfds`, read afresh on every round, because the callbacks it invokes may register and cancel watches —
+  and invokes the watch of every slot in use that has `revents`.
+
+  Every read of a slot names the block it goes to (`IoSt.gen` counts the `realloc`s that moved `evdata->pollfds`): reading
+  through a pointer to an earlier block, or beyond `alloc_fds`, is an explicit `ub` (`IoSt.rd`).
+
+  The descriptors are pipes of the harness, readable for good (`ready`) or never.  A callback is a list of `IAct`. -/
+
+/-- What the callback of an I/O watch does: register a further watch (without actions), cancel a watch, cancel itself. -/
+inductive IAct where
+  | reg (ready : Bool)
+  | cancel (k : Nat)
+  | cancelSelf
+deriving Repr, Inhabited
+
+structure IoRec where
+  ready : Bool := false
+  acts : List IAct := []
+deriving Repr, Inhabited
+
+inductive IoSlot where
+  | free            -- fd == -1
+  | term            -- the terminal's input (on_term_readable: `Model/LifeTop.lean`)
+  | app (k : Nat)   -- the k-th watch of the application
+deriving Repr, Inhabited, DecidableEq
+
+structure IoSt where
+  /-- behaviour records the harness has handed out -/
+  recs : Array IoRec := #[]
+  /-- `pollfds[0 .. nfds)` / `pollwatches[0 .. nfds)` -/
+  slots : Array IoSlot := #[.term]
+  /-- `pollfds[i].revents` -/
+  revents : Array Bool := #[false]
+  /-- `alloc_fds` -/
+  alloc : Nat := 4
+  /-- the block `evdata->pollfds` points to -/
+  gen : Nat := 0
+  /-- callbacks of the current operation, oldest first -/
+  log : List String := []
+deriving Repr, Inhabited
+
+def ioCap : Nat := 64
+
+/-- A read of `pollfds[idx]` through a pointer to block `blk`. -/
+def IoSt.rd (io : IoSt) (blk idx : Nat) : Out Unit :=
+  if blk ≠ io.gen then .ub .mem "evloop_run: pollfds[idx] read through a pointer to a block realloc() has freed"
+  else if io.alloc ≤ idx then .ub .mem "evloop_run: pollfds[idx] read beyond alloc_fds"
+  else pure ()
+
+/-- `evloop_io` for the record `k`. -/
+def IoSt.register (io : IoSt) (k : Nat) : IoSt :=
+  match io.slots.toList.findIdx? (· = .free) with
+  | some idx => { io with slots := io.slots.setIfInBounds idx (.app k), revents := io.revents.setIfInBounds idx false }
+  | none =>
+    let io := if io.slots.size = io.alloc then { io with alloc := io.alloc * 2, gen := io.gen + 1 } else io
+    { io with slots := io.slots.push (.app k), revents := io.revents.push false }
+
+/-- `tickit_watch_io` of a new behaviour record (the harness hands out at most `ioCap`). -/
+def IoSt.watch (io : IoSt) (r : IoRec) : IoSt :=
+  if io.recs.size ≥ ioCap then io
+  else ({ io with recs := io.recs.push r }).register io.recs.size
+
+def IoSt.pending (io : IoSt) (k : Nat) : Bool := io.slots.any (· = .app k)
+
+/-- `tickit_watch_cancel` of the k-th watch if it is still registered: `evloop_cancel_io`. -/
+def IoSt.cancel (io : IoSt) (k : Nat) : IoSt :=
+  { io with slots := io.slots.map (fun s => if s = .app k then .free else s) }
+
+def IoSt.act (io : IoSt) (self : Nat) : IAct → IoSt
+  | .reg ready => io.watch { ready := ready }
+  | .cancel k => io.cancel k
+  | .cancelSelf => io.cancel self
+
+/-- `poll`: every slot in use is told whether its descriptor is readable (the terminal's slot is followed below). -/
+def IoSt.poll (io : IoSt) : IoSt :=
+  { io with revents := io.slots.map (fun s => match s with
+      | .app k => (io.recs[k]?.getD {}).ready
+      | _ => false) }
+
+/-- The dispatch loop of `evloop_run` from `idx` on. -/
+def IoSt.dispatch : Nat → Nat → IoSt → Out IoSt
+  | 0, _, _ => .fuel
+  | fuel + 1, idx, io =>
+    if io.slots.size ≤ idx then pure io                  -- idx < evdata->nfds
+    else do
+      io.rd io.gen idx                                   -- evdata->pollfds[idx].fd, .revents
+      match io.slots[idx]?.getD .free with
+      | .app k =>
+        if io.revents[idx]?.getD false then
+          let io := { io with log := io.log ++ [s!"I{k}"] }
+          let io := (io.recs[k]?.getD {}).acts.foldl (fun io a => io.act k a) io
+          IoSt.dispatch fuel (idx + 1) io
+        else IoSt.dispatch fuel (idx + 1) io
+      | _ => IoSt.dispatch fuel (idx + 1) io
+
+def ioFuel : Nat := ioCap + 2
+
 structure OTop where
   top : Top := {}
   o : OutSt := {}
+  io : IoSt := {}
+
+/-- Is there an instance whose watches exist? -/
+def instAlive (top : Top) : Bool :=
+  match top.inst with
+  | some i => !i.freed
+  | none => false
 
 /-- The operations of the `life` engine: those of `XOp` and the ones of this layer. -/
 inductive YOp where
@@ -59,6 +169,8 @@ inductive YOp where
   | tflush                                           -- tickit_term_flush
   | tcaps (rgb8 colon viaCtl : Bool)                 -- DECRQSS reply for SGR pushed as input; `viaCtl`: xterm.cap_rgb8 set by control
   | tsetpen (set : Bool) (pen : TermPen.Pen)         -- tickit_term_setpen / tickit_term_chpen of a pen made for the call
+  | iio (ready : Bool) (acts : List IAct)            -- tickit_watch_io on a pipe that is readable for good / never
+  | iiocancel (k : Nat)                              -- tickit_watch_cancel of the k-th I/O watch
 
 def YOp.isNew : YOp → Bool
   | .x op => op.isNew
@@ -111,6 +223,20 @@ def drvChpen (tb : TermBuf.State) (caps : TermPen.Caps) (delta final : TermPen.P
   | .overflow _ => .ub "chpen: params[pindex++] written past the end of int params[N]"
   | .bytes bs => if bs.isEmpty then .ok tb else TermBuf.writeStr tb (bytesOfNats bs ++ [0]) bs.length
 
+/-- The slot tables after an operation of the lower layers: the watches go with the instance (`tickit_destroy`:
+    `destroy_watchlist`); a tick that ran polls and dispatches: the terminal's slot is the first (`xstep` has followed it,
+    last of all it does), the application's come after it. -/
+def ioAfter (top : Top) (op : XOp) (r : String) (io : IoSt) : Out IoSt :=
+  let io : IoSt := if !instAlive top then {} else io
+  match op with
+  | .itick _ => if r = "ok" then IoSt.dispatch ioFuel 0 io.poll else pure io
+  | _ => pure io
+
+/-- An operation on the I/O watches alone. -/
+def ystepIo (o : OTop) : Bool → IoSt → Out (OTop × String)
+  | false, _ => pure (o, "skip")
+  | true, io => pure ({ o with io := io }, "ok")
+
 def ystep (tc : TCfg) (o : OTop) : YOp → Out (OTop × String)
   | .x op => do
     let (top, r) ← xstep tc o.top op
@@ -120,7 +246,8 @@ def ystep (tc : TCfg) (o : OTop) : YOp → Out (OTop × String)
       | .newin .. => OutSt.fresh true
       | .newtop .. => OutSt.fresh false
       | _ => if op.quiet || r = "skip" then o.o else { o.o with known := false }
-    pure ({ top := top, o := out }, r)
+    let io ← ioAfter top op r o.io
+    pure ({ top := top, o := out, io := io }, r)
   | .tbuf n =>
     if !outUsable o then pure (o, "skip")
     else if !o.o.known then pure (o, "unsupported-output")
@@ -148,7 +275,7 @@ def ystep (tc : TCfg) (o : OTop) : YOp → Out (OTop × String)
           rgb8 := if viaCtl then rgb8
                   else if Gen.ModeLayout.rgb8Guarded && o.o.rgb8Forced then o.o.caps.rgb8
                   else (o.o.caps.rgb8 || rgb8) }
-      pure ({ top := top, o := { o.o with caps := caps, rgb8Forced := o.o.rgb8Forced || viaCtl } },
+      pure ({ o with top := top, o := { o.o with caps := caps, rgb8Forced := o.o.rgb8Forced || viaCtl } },
         s!"ok rgb8={if caps.rgb8 then 1 else 0} colon={if caps.colon then 1 else 0}")
   | .tsetpen set pen =>
     if !outUsable o then pure (o, "skip")
@@ -157,6 +284,10 @@ def ystep (tc : TCfg) (o : OTop) : YOp → Out (OTop × String)
       let delta := TermPen.termDelta set xtermColors o.o.cache pen
       let cache := TermPen.termCache set xtermColors o.o.cache pen
       withTb { o with o := { o.o with cache := cache } } (drvChpen o.o.tb o.o.caps delta cache)
+  | .iio ready acts =>
+    ystepIo o (instHeld o.top && decide (o.io.recs.size < ioCap)) (o.io.watch { ready := ready, acts := acts })
+  | .iiocancel k =>
+    ystepIo o (instHeld o.top && o.io.pending k) (o.io.cancel k)
 
 def yrunOps (tc : TCfg) : OTop → List YOp → Out OTop
   | o, [] => .ok o
